@@ -247,7 +247,7 @@ Proof.
   rewrite (bind_eq _ _ s (if check_only then [] else [SGate [] name (map ELit vs) (map qarg_of bs)]) s1).
   2:{ rewrite (bind_eq _ _ s (if check_only then [] else [SGate [] name (map ELit vs) (map qarg_of bs)]) s1).
       - rewrite (bind_eq _ _ s1 [] s1 eq_refl). unfold ret. now rewrite app_nil_r.
-      - rewrite (bind_eq _ _ s s s eq_refl). cbn [smem existsb]. rewrite (R_gates _ _ R). exact Eb. }
+      - rewrite (bind_eq _ _ s s s eq_refl). cbn [smem existsb]. rewrite (R_gates _ _ R name np k Hn). exact Eb. }
   exists s1. split; [unfold emit, ret; destruct check_only; reflexivity|]. split; [exact D1|].
   cbn [ev_of]. now rewrite mapM_lit_bit_of.
 Qed.
@@ -487,7 +487,7 @@ Qed.
 
 Lemma loop_fix f env s stm out : Top env s -> loop_ok env stm = Some out ->
   exists s', visit_stmt false [] (S (S f)) stm s = Ok (out, s') /\ Top env s' /\
-             num_qubits s' = num_qubits s /\ num_clbits s' = num_clbits s /\ Dstep s s' (evs_of out).
+             num_qubits s' = num_qubits s /\ num_clbits s' = num_clbits s /\ Dstep s s' (evs_of out) /\ DE s s'.
 Proof.
   intros T H. destruct stm; try discriminate H. cbn [loop_ok] in H.
   destruct t; try discriminate H. destruct size; [discriminate H|].
@@ -505,7 +505,7 @@ Proof.
     - pose proof (zrange_in _ _ _ Hv) as R. unfold int32 in *. apply andb_true_iff in Ha as [A0 A1]. apply andb_true_iff in Hb as [B0 B1].
       apply Z.leb_le in A0, A1, B0, B1. apply andb_true_iff. split; apply Z.leb_le; lia.
     - eapply forallb_forall in Hall; eauto. }
-  exists s'. split; [exact E|]. split; [eapply Top_DE; eauto|]. destruct (DE_counts _ _ D) as [Nq Ncl]. auto.
+  exists s'. split; [exact E|]. split; [eapply Top_DE; eauto|]. destruct (DE_counts _ _ D) as [Nq Ncl]. auto 6.
 Qed.
 
 (* ---------- programs with loops ---------- *)
@@ -583,7 +583,7 @@ Proof.
                                Dstep s s1 (evs_of out) /\ forall r0, wf_flat env (out ++ r0) = wf_flat env' r0).
     { unfold ltop_step in Es. destruct (loop_ok env stm) as [out'|] eqn:El.
       - injection Es as <- <-. destruct fuel as [|[|f]]; try lia.
-        destruct (loop_fix f env s stm out' T El) as (s1 & E1 & T1 & Nq & Nc & S1).
+        destruct (loop_fix f env s stm out' T El) as (s1 & E1 & T1 & Nq & Nc & S1 & _).
         pose proof (loop_ok_ops env stm out' El) as Ops. destruct (total_ops env out' Ops) as [Tq Tc].
         exists s1. split; [exact E1|]. split; [exact T1|]. split; [lia|]. split; [lia|]. split; [exact S1|].
         intros r0. now apply wf_flat_ops.
